@@ -138,6 +138,15 @@ func runC13(c *Ctx) {
 				c.Ob("C13-R2", "miner: uncles of recent ancestors are remembered under the hash the verifier computes (version of the uncle's own height)", c.Position(a.Pos()), okSame, "added: "+t)
 			}
 			c.Ob("C13-R2", "miner records the uncles of recent ancestors", c.FnPos(mc), nm >= 1, fmt.Sprintf("%d", nm))
+			// the miner looks back exactly as far as the verifier (7 generations): one more and it packs an uncle
+			// whose parent the verifier no longer knows, one less is merely conservative
+			ws := callSites(mc, `\.GetBlocksFromHash$`)
+			for _, w := range ws {
+				a := w.Common().Args
+				k, isC := constInt(a[len(a)-1])
+				c.Ob("C13-R2", "miner: ancestor window for uncle candidates is at most the verifier's 7 generations", c.Position(w.Pos()), isC && k >= 1 && k <= 7, c.termOf(mc, a[len(a)-1]))
+			}
+			c.Ob("C13-R2", "miner gathers its ancestor window at one site", c.FnPos(mc), len(ws) == 1, fmt.Sprintf("%d", len(ws)))
 		}
 		if len(adds) < 3 {
 			c.Ob("C13-R2", "VerifyUncles: past uncles, block hash and candidates are added to the set", c.FnPos(fn), false, fmt.Sprintf("%d Add sites", len(adds)))
